@@ -195,6 +195,20 @@ func TestProp_WrappedRateCadence(t *testing.T) {
 		spec.Opts.MaxDuration = time.Duration(c.RunMs) * time.Millisecond
 		spec.Opts.IgnoreDropped = true
 		spec.Opts.MaxIterations = c.Limit
+		// one run in five is ended by the caller's cancellation instead of max-duration: whatever the last
+		// accepted tick requested and nobody started is dropped all the same
+		cancelAt := 0
+		if rapid.IntRange(0, 4).Draw(rt, "endByCancel") == 0 {
+			cancelAt = rapid.IntRange(5, c.RunMs).Draw(rt, "cancelAtMs")
+			ctx, cancel := context.WithCancel(context.Background())
+			defer cancel()
+			spec.Ctx = ctx
+			spec.Opts.MaxDuration = 5 * time.Second
+			go func() {
+				time.Sleep(time.Duration(cancelAt) * time.Millisecond)
+				cancel()
+			}()
+		}
 		out, err := vlib.Execute(spec)
 		if err != nil {
 			rt.Fatalf("VERIF-INFRA: %v", err)
@@ -231,6 +245,9 @@ func TestProp_WrappedRateCadence(t *testing.T) {
 		}
 		if c.Special != "" {
 			cls = append(cls, c.Special)
+		}
+		if cancelAt > 0 {
+			cls = append(cls, "ended-by-cancel")
 		}
 		if c.StallAt > 0 && len(ev) > c.StallAt+1 {
 			cls = append(cls, "ticking-goroutine-held-up")
